@@ -133,6 +133,7 @@ package fsm
 //@   pure
 //@   ensures isnil(result1) ==> result0 != nil && fresh(result0) && result0.StakedAmount == stakeOf(addrOf(address)) && bytes(result0.Address) == addrOf(address)
 //@   ensures !isnil(result1) ==> result0 == nil
+//@   ensures[output] isnil(result1) ==> bytes(result0.Output) == valOutput(addrOf(address))
 //@ func (*StateMachine).UpdateValidatorStake
 //@   trusted
 //@   modifies ghost(stakeOf), ghost(stakeSum), ghost(supStaked), ghost(supDelegated), Validator.StakedAmount, Validator.Committees
@@ -236,6 +237,49 @@ package fsm
 //@   ensures[sender] result1 == nil ==> !isnil(result0) && addrOf(result0) == keyAddr(bytes(tx.Signature.PublicKey))
 //@   ensures[authorized] result1 == nil ==> exists i int :: 0 <= i && i < len(authorizedSigners) && bytes(authorizedSigners[i]) == addrOf(result0)
 //@   ensures[verified] result1 == nil ==> sigVerifies(bytes(tx.Signature.PublicKey), txSignBytes(tx), bytes(tx.Signature.Signature)) || batchQueued(batchSigVerifier, bytes(tx.Signature.PublicKey), txSignBytes(tx), bytes(tx.Signature.Signature)) || hashOf(pbBytes(tx)) == hashOf(pbBytes(rlpDecode(bytes(tx.Signature.Signature), tx.Memo == RLPV2Indicator)))
+
+// who may sign for what (taken from the property statement): the sender for transfers, DEX operations,
+// subsidies, DAO transfers, parameter changes and order creation; the operator - or the output address
+// of a non-custodial validator - for validator operations; the staking key and the named output address
+// for a new stake; the seller recorded in the STORED order for order edits and deletions; the
+// certificate's proposer for certificate results. Nobody else, for no message type.
+//   valOutput(a)      output address of the validator record stored under operator address a
+//   orderSeller(c,id) SellersSendAddress of the order stored under (chain c, order id)
+//@ ghost valOutput(a BSeq) BSeq
+//@ ghost orderSeller(c int) [BSeq]BSeq
+//@ func (*StateMachine).GetOrder
+//@   trusted
+//@   pure
+//@   ensures isnil(err) ==> order != nil && bytes(order.SellersSendAddress) == orderSeller(chainId)[bytes(orderId)]
+//@ func (*StateMachine).pubKeyBytesToAddress
+//@   pure
+//@   ensures[derived] isnil(result1) ==> bytes(result0) == keyAddr(bytes(public))
+//@ func (*StateMachine).GetAuthorizedSignersForValidator
+//@   pure
+//@   ensures[owners] isnil(err) && address != nil ==> (len(signers) == 1 || len(signers) == 2) && bytes(signers[0]) == bytes(address) && (len(signers) == 2 ==> bytes(signers[1]) == valOutput(bytes(address)))
+//@   ensures[custodial] isnil(err) && address != nil && len(signers) == 1 ==> valOutput(bytes(address)) == bytes(address)
+//@   ensures[fail] !isnil(err) ==> len(signers) == 0
+//@ spec func oneSigner(signers [][]byte, a BSeq) bool = len(signers) == 1 && bytes(signers[0]) == a
+//@ spec func validatorSigners(signers [][]byte, a BSeq) bool = (len(signers) == 1 || len(signers) == 2) && bytes(signers[0]) == a && (len(signers) == 2 ==> bytes(signers[1]) == valOutput(a))
+//@ func (*StateMachine).GetAuthorizedSignersFor
+//@   pure
+//@   ensures[send] isnil(err) && typeis(msg, *MessageSend) ==> oneSigner(signers, bytes(dyn(msg, *MessageSend).FromAddress))
+//@   ensures[stake] isnil(err) && typeis(msg, *MessageStake) ==> len(signers) == 2 && bytes(signers[0]) == keyAddr(bytes(dyn(msg, *MessageStake).PublicKey)) && bytes(signers[1]) == bytes(dyn(msg, *MessageStake).OutputAddress)
+//@   ensures[editstake] isnil(err) && typeis(msg, *MessageEditStake) && dyn(msg, *MessageEditStake).Address != nil ==> validatorSigners(signers, bytes(dyn(msg, *MessageEditStake).Address))
+//@   ensures[unstake] isnil(err) && typeis(msg, *MessageUnstake) && dyn(msg, *MessageUnstake).Address != nil ==> validatorSigners(signers, bytes(dyn(msg, *MessageUnstake).Address))
+//@   ensures[pause] isnil(err) && typeis(msg, *MessagePause) && dyn(msg, *MessagePause).Address != nil ==> validatorSigners(signers, bytes(dyn(msg, *MessagePause).Address))
+//@   ensures[unpause] isnil(err) && typeis(msg, *MessageUnpause) && dyn(msg, *MessageUnpause).Address != nil ==> validatorSigners(signers, bytes(dyn(msg, *MessageUnpause).Address))
+//@   ensures[param] isnil(err) && typeis(msg, *MessageChangeParameter) ==> oneSigner(signers, bytes(dyn(msg, *MessageChangeParameter).Signer))
+//@   ensures[dao] isnil(err) && typeis(msg, *MessageDAOTransfer) ==> oneSigner(signers, bytes(dyn(msg, *MessageDAOTransfer).Address))
+//@   ensures[subsidy] isnil(err) && typeis(msg, *MessageSubsidy) ==> oneSigner(signers, bytes(dyn(msg, *MessageSubsidy).Address))
+//@   ensures[results] isnil(err) && typeis(msg, *MessageCertificateResults) ==> oneSigner(signers, keyAddr(bytes(dyn(msg, *MessageCertificateResults).Qc.ProposerKey)))
+//@   ensures[createorder] isnil(err) && typeis(msg, *MessageCreateOrder) ==> oneSigner(signers, bytes(dyn(msg, *MessageCreateOrder).SellersSendAddress))
+//@   ensures[editorder] isnil(err) && typeis(msg, *MessageEditOrder) ==> oneSigner(signers, orderSeller(dyn(msg, *MessageEditOrder).ChainId)[bytes(dyn(msg, *MessageEditOrder).OrderId)])
+//@   ensures[deleteorder] isnil(err) && typeis(msg, *MessageDeleteOrder) ==> oneSigner(signers, orderSeller(dyn(msg, *MessageDeleteOrder).ChainId)[bytes(dyn(msg, *MessageDeleteOrder).OrderId)])
+//@   ensures[dexlimit] isnil(err) && typeis(msg, *MessageDexLimitOrder) ==> oneSigner(signers, bytes(dyn(msg, *MessageDexLimitOrder).Address))
+//@   ensures[dexdeposit] isnil(err) && typeis(msg, *MessageDexLiquidityDeposit) ==> oneSigner(signers, bytes(dyn(msg, *MessageDexLiquidityDeposit).Address))
+//@   ensures[dexwithdraw] isnil(err) && typeis(msg, *MessageDexLiquidityWithdraw) ==> oneSigner(signers, bytes(dyn(msg, *MessageDexLiquidityWithdraw).Address))
+//@   ensures[closed] isnil(err) ==> typeis(msg, *MessageSend) || typeis(msg, *MessageStake) || typeis(msg, *MessageEditStake) || typeis(msg, *MessageUnstake) || typeis(msg, *MessagePause) || typeis(msg, *MessageUnpause) || typeis(msg, *MessageChangeParameter) || typeis(msg, *MessageDAOTransfer) || typeis(msg, *MessageSubsidy) || typeis(msg, *MessageCertificateResults) || typeis(msg, *MessageCreateOrder) || typeis(msg, *MessageEditOrder) || typeis(msg, *MessageDeleteOrder) || typeis(msg, *MessageDexLimitOrder) || typeis(msg, *MessageDexLiquidityDeposit) || typeis(msg, *MessageDexLiquidityWithdraw)
 
 // ---- C12: staking bookkeeping ---------------------------------------------------------------------------------
 // Abstract key/value view of the working store (ghost kvHas: which keys are present), seen through the
